@@ -26,7 +26,7 @@ REQUIRED_COUNTERS = ['mutant_compiles', 'enum_compiles', 'snippet_compiles']
 
 
 def time_limit(tier):
-    return 900 if tier == 'quick' else 5400
+    return common.default_limit(tier)
 
 
 def budget(tier):
